@@ -2655,7 +2655,7 @@ class sptensor:
             #  call it twice
             nzsubsIdx = tt_intersect_rows(self.subs, other.subs)
             nzsubs = self.subs[nzsubsIdx]
-            iother = tt_intersect_rows(other.subs, self.subs)
+            _, iother = tt_ismember_rows(nzsubs, other.subs)
             equal_subs = self.vals[nzsubsIdx] == other.vals[iother]
             znzsubs = np.empty(shape=(0, other.ndims), dtype=int)
             if equal_subs.size > 0:
@@ -2967,7 +2967,7 @@ class sptensor:
 
         if isinstance(other, ttb.sptensor):
             idxSelf = tt_intersect_rows(self.subs, other.subs)
-            idxOther = tt_intersect_rows(other.subs, self.subs)
+            _, idxOther = tt_ismember_rows(self.subs[idxSelf], other.subs)
             return ttb.sptensor(
                 self.subs[idxSelf],
                 self.vals[idxSelf] * other.vals[idxOther],
@@ -3315,7 +3315,7 @@ class sptensor:
             # Both nonzero
             if self.subs.size > 0 and other.subs.size > 0:
                 idxSelf = tt_intersect_rows(self.subs, other.subs)
-                idxOther = tt_intersect_rows(other.subs, self.subs)
+                _, idxOther = tt_ismember_rows(self.subs[idxSelf], other.subs)
                 newsubs = self.subs[idxSelf, :]
                 newvals = self.vals[idxSelf] / other.vals[idxOther]
             else:
